@@ -6,7 +6,9 @@ CFG = {
     "exe": "aqmodel_c11",
     "harness": "c11",
     "rule": "byte strings: exhaustive over a 17-symbol boundary alphabet up to length 4 (quick) / 5 (thorough), random nested items "
-            "with their encodings, 6 mutations each, truncations, trailing bytes, long-form size boundaries. Typed targets (uint8..64, "
+            "with their encodings, 6 mutations each, truncations, trailing bytes, long-form size boundaries; every such input also through the "
+            "Stream entry point and DecodeBytes with the error kind against the Go-shaped Stream machine (sdec), and the Stream "
+            "primitives Uint/Bool/Bytes/Raw/Kind on strings up to length 3, all single bytes and mutated encodings (sprim). Typed targets (uint8..64, "
             "bool, big, bytes, string, [1]byte, [][1]byte, [20]byte, []uint16, [3]uint16, structs with nil/tail/- tags, byte arrays "
             "[0]..[33], nested struct with pointer/RawValue/interface, rlp:\"nil\" over every element kind, plain pointers of every "
             "element kind incl. nil (encode only), **T nil, Header, Transaction, Log, Receipt, Account, Block): per target 300 (quick) / "
@@ -15,7 +17,11 @@ CFG = {
             "decoded value compared as an item), every generated value is encoded by the real encoder and by encTy (tenc); in addition "
             "the real code is judged directly: decode(encode v)=v and decode ok => re-encoding equals the input. Non-trivial = the real "
             "decoder accepted the input (distinct inputs counted).",
-    "tie": {"rlp.DecodeBytes/Stream into interface{}": "corr (Go vs Model.Rlp.dec)", "rlp.EncodeToBytes of items": "corr (Go vs Model.Rlp.enc)",
+    "tie": {"rlp.DecodeBytes/Stream into interface{}": "corr (Go vs Model.Rlp.dec)",
+            "rlp.Stream (Kind, readKind, readUint, readFull, readByte, willRead, Bytes, List, ListEnd, decodeInterface/decodeListSlice) "
+            "through NewStream(r,len)+Decode+second Decode and through DecodeBytes":
+                "corr WITH error kinds (Go vs the Go-shaped machine Model.RlpStream, line kind sdec) + proof stream_refines (machine = Model.Rlp.dec)",
+            "Stream.Uint/Bool/Bytes/Raw/Kind on a fresh stream": "corr with error kinds (line kind sprim); no refinement theorem yet", "rlp.EncodeToBytes of items": "corr (Go vs Model.Rlp.enc)",
             "rlp.Split": "corr",
             "typed decoders (decodeUint, decodeBigInt, decodeBool, decodeString/ByteSlice, decodeByteArray, decodeListSlice/Array, "
             "struct decoder incl. tail, makePtrDecoder, makeOptionalPtrDecoder, decodeRawValue, decodeInterface)":
@@ -24,19 +30,25 @@ CFG = {
             "custom DecodeRLP/EncodeRLP of Transaction, Log, Block": "corr through the descriptor of the struct they delegate to",
             "Receipt.DecodeRLP status rule": "outside the descriptor language: inputs rejected with 'invalid receipt status' are judged directly only"},
     "assumptions": ["Go runtime, math/big and the cryptographic primitives are modelled, not verified (DESIGN.md 2.5)",
-                    "allocation bound is argued from the model (decoded content length = input length); Go's make() sizes are not observed",
+                    "allocation bound (alloc_bound) is proved for the ghost counter of the Stream machine: sum of make([]byte,size) of Bytes and the "
+                    "one-byte literals over a whole run <= input length; Go's make() sizes are not observed at run time; the fixed 8-byte uintbuf and "
+                    "the []interface{} element slices are not counted",
                     "type descriptors of the Go target types are written by hand in the harness (reflection order/tags are not extracted)"],
     "trusted_base": ["Model.Rlp mirrors rlp/encode.go puthead/encodeString and the canonical-size rules of rlp/decode.go readKind/readUint and rlp/raw.go",
-                     "Model.RlpTyped mirrors the typed decoders of rlp/decode.go and the writers of rlp/encode.go on byte strings (list extents = take/drop)"],
+                     "Model.RlpTyped mirrors the typed decoders of rlp/decode.go and the writers of rlp/encode.go on byte strings (list extents = take/drop)",
+                     "Model.RlpStream mirrors rlp.Stream statement by statement (stack of extents, remaining/limited, cached kind/size/byteval/kinderr, ghost allocation counter)"],
 }
 META = {
     "technique": "Lean 4 proof (round trip + canonicity + totality of the RLP model, untyped and typed, unbounded) tied to rlp/ by differential correspondence",
     "text": "Theorems dec_enc, enc_dec, one_encoding_per_value, enc_injective, dec_total hold for all items/byte strings in the Lean model of the RLP "
-            "encoder and strict decoder; typed_dec_enc, typed_enc_dec, typed_decoded_wf, typed_one_encoding_per_value, typed_enc_injective, "
+            "encoder and strict decoder; stream_refines, stream_refines_reject, stream_refines_stream, stream_more_than_one_value (the Go-shaped rlp.Stream "
+            "state machine with list-extent stack, input budget and sticky kinderr decodes into interface{} exactly what the strict decoder accepts, via "
+            "DecodeBytes and via NewStream+Decode+EOF), alloc_bound (ghost sum of allocated buffer bytes <= input length, accepted or rejected), "
+            "stream_total, stream_invariant; typed_dec_enc, typed_enc_dec, typed_decoded_wf, typed_one_encoding_per_value, typed_enc_injective, "
             "typed_decode_total, typed_decode_consumes hold for the model of the reflection-driven typed decoders/writers over the whole type universe "
             "(uint, big, bool, bytes, [n]byte, slices, arrays, structs with tail, pointers, rlp:\"nil\" pointers, RawValue, interface{}), which covers "
             "the shapes of Header, Transaction, Block, Receipt, Log and Account. Every run re-checks the proofs and runs the real rlp package and the "
-            "compiled model on the same >300k inputs (exhaustive small scope + random + mutations), requiring identical accept/reject and values for the "
+            "compiled model on the same >500k inputs (exhaustive small scope + random + mutations), requiring identical accept/reject and values for the "
             "untyped and for every typed target; typed targets are additionally judged directly against the round-trip/canonicity statement.",
     "note": GEN + " Canonicity of rlp:\"nil\" pointers whose element is itself a pointer (or a RawValue) is excluded by Ty.canon: Go accepts both empty "
             "values there by design (typed_nil_ptr_ptr_two_encodings_witness); no type in the repository has that shape.",
